@@ -95,6 +95,15 @@ pub fn run(rec: &mut Recorder, w: &mut World, tier: &str, seed: u64) {
                     let flag2 = rec.exec(w, "e.filtered");
                     if again != full || flag2 != "false" { rec.fail("empty-filter-not-full", format!("{}: then an empty filter loaded {} (flag {})", descr, again, flag2)); }
                 }
+                // the constructor over a plain adapter loads everything, whatever the model it is given already holds
+                if rng.chance(1, 3) {
+                    let (mem2, text2) = content(kind, &lines, &mut rng);
+                    let r2 = rec.exec(w, &format!("e.newpre\t{}\t{}\t{}\t{}\t{}", kind, enc_lists(&mem2), esc(&text2), enc_list(&fp), enc_list(&fg)));
+                    let got2 = rec.exec(w, "e.pol");
+                    let flag3 = rec.exec(w, "e.filtered");
+                    if r2 == "ok" && (got2 != full || flag3 != "false") { rec.fail("constructor-kept-prefilled-subset", format!("{}: Enforcer::new over a plain adapter with a model pre-filled through that filter holds {} (is_filtered {}), the store is {}", descr, got2, flag3, full)); }
+                    rec.count("constructor:prefilled-model");
+                }
                 rec.count(&format!("adapter:{}", kind));
                 rec.nontrivial_case(&descr);
                 if si == 0 && kind == "string" { rec.sample(descr.clone()); }
